@@ -69,7 +69,8 @@ pub fn annotate_sheet(rng: &mut Rng, ws: &mut Worksheet, sheet_name: &str, uid: 
         let mut c = Comment::default();
         c.new_comment(pos);
         c.set_text_string(format!("c{} <&> \"é\"\nline2", uid));
-        c.set_author(format!("author{} & co", *uid % 3));
+        // authors may differ in letter case only
+        c.set_author(match rng.below(5) { 0 => "Bob".to_string(), 1 => "bob".to_string(), _ => format!("author{} & co", *uid % 3) });
         ws.add_comments(c);
         o.count("comments", 1);
     }
@@ -165,6 +166,10 @@ pub fn annotate_sheet(rng: &mut Rng, ws: &mut Worksheet, sheet_name: &str, uid: 
     }
     if rng.chance(1, 2) {
         ws.get_tab_color_mut().set_argb(format!("FF{:06X}", rng.below(0xFFFFFF)));
+        if rng.chance(1, 2) {
+            // a tint on a colour given as rgb (not only on theme colours)
+            ws.get_tab_color_mut().set_tint(*rng.pick(&[-0.249977111117893, 0.39997558519241921, 0.5]));
+        }
         o.count("tabcolor", 1);
     }
     if rng.chance(1, 2) {
